@@ -251,6 +251,8 @@ where
         let len = archive.len();
         let mut files = HashMap::with_capacity(len);
         let mut dirs = HashMap::new();
+        // The root always exists, even in an archive without any member
+        dirs.insert(SharedString::from(""), Vec::new());
         let mut id_builder = IdBuilder::default();
 
         for index in 0..len {
